@@ -194,8 +194,23 @@ pub fn body_slow(_f: usize, _x: u32) -> Slow {
 /// A user type that reports its own size: 24 + 16 * (value mod 7) bytes.
 #[derive(Debug, Clone)]
 pub struct Weighted(pub u64);
+thread_local! {
+    /// one-shot: the next `estimate_memory` of a `Weighted` on this thread parks until released. The engines
+    /// call the estimator of the value being stored while they hold the order-queue lock, so this parks a
+    /// thread INSIDE a store's critical section without any hook in the library.
+    pub static HOLD_EST: std::cell::Cell<bool> = std::cell::Cell::new(false);
+}
+pub static EST_HELD: std::sync::atomic::AtomicUsize = std::sync::atomic::AtomicUsize::new(0);
+pub static RELEASE_EST: std::sync::atomic::AtomicBool = std::sync::atomic::AtomicBool::new(false);
 impl cachelito_core::MemoryEstimator for Weighted {
     fn estimate_memory(&self) -> usize {
+        if HOLD_EST.with(|h| h.replace(false)) {
+            EST_HELD.fetch_add(1, std::sync::atomic::Ordering::SeqCst);
+            let t0 = std::time::Instant::now();
+            while !RELEASE_EST.load(std::sync::atomic::Ordering::SeqCst) && t0.elapsed() < std::time::Duration::from_secs(3) {
+                std::thread::sleep(std::time::Duration::from_millis(1));
+            }
+        }
         24 + 16 * (self.0 % 7) as usize
     }
 }
